@@ -20,6 +20,7 @@ import (
 	erc20contracts "github.com/teleport-network/teleport/syscontracts/erc20"
 	aggregatetypes "github.com/teleport-network/teleport/x/aggregate/types"
 	rvestingtypes "github.com/teleport-network/teleport/x/rvesting/types"
+	tsstypes "github.com/teleport-network/teleport/x/xibc/clients/tss-client/types"
 	clienttypes "github.com/teleport-network/teleport/x/xibc/core/client/types"
 	packettypes "github.com/teleport-network/teleport/x/xibc/core/packet/types"
 	"github.com/teleport-network/teleport/x/xibc/exported"
@@ -388,6 +389,19 @@ func (g *gen) relayers() {
 	}
 }
 
+// tssUpdates: TSS clients whose key material was rotated by a client update (MsgUpdateClient from the TSS account) before the export.
+func (g *gen) tssUpdates() {
+	for _, p := range g.tssClients() {
+		if !rapid.Bool().Draw(g.t, "tssUpdated") {
+			continue
+		}
+		hdr := &tsstypes.Header{TssAddress: g.tss.Acc.String(), Pubkey: []byte("rotated key of " + p.Name), PartPubkeys: [][]byte{[]byte("p1"), []byte("p2")}, Threshold: 2}
+		kit.Must(g.e.c.App.XIBCKeeper.ClientKeeper.UpdateClient(g.e.ctx, p.Name, hdr), "TSS client update")
+		g.cl.add("client:tss_updated")
+		g.logf("tss update %s", p.Name)
+	}
+}
+
 func (g *gen) tssClients() (out []*clientPlan) {
 	for _, p := range g.clients {
 		if p.Type == tTSS {
@@ -728,6 +742,7 @@ func buildState(t *rapid.T, r *rec.Recorder, c *kit.Chain, ctx sdk.Context) *gen
 		sent: map[string][]packettypes.Packet{}, seenRcv: map[string]bool{}}
 	g.buildClients()
 	g.lifecycle()
+	g.tssUpdates()
 	for _, p := range g.clients {
 		g.noteHeights(p)
 	}
